@@ -62,12 +62,12 @@ def check_state(ctx, st, rep, where):
     stt, ct = hp.sin_cos(th)
     want = [stt * cp, stt * sp, ct]
     err = max(abs(float(hp.D(a) - b)) for a, b in zip(d, want))
-    if err > 1e-15:
+    if err > 4e-15:
         ctx.violation("S5", f"direction differs from (sin th cos ph, sin th sin ph, cos th) of the beam's own angles by {err:.2e} after {where}",
                       {"kind": "direction_stale"}, dict(rep, error=err, expected=[float(x) for x in want]))
         ok = False
     nrm = abs(float(sum(x * x for x in d) - 1))
-    if nrm > 1e-15:
+    if nrm > 4e-15:
         ctx.violation("S5", f"direction is not a unit vector (|d|^2 - 1 = {nrm:.2e}) after {where}", {"kind": "direction_norm"}, rep)
         ok = False
     return ok
@@ -176,7 +176,8 @@ def check_snell(ctx, obs):
         rep = {"crystal": o["id"], "polarization": o["pol"], "crystal_theta": fl(o["ct"]), "crystal_phi": fl(o["cp"]),
                "wavelength_m": fl(o["lambda"]), "beam_phi": fl(o["bphi"]), "theta_external_deg": fl(o["te_deg"]),
                "call": "Beam::new(pol, phi, 0.1 rad, lambda, 100 um).set_theta_external(theta_e, &setup); theta_external(&setup)",
-               "replay": {"kind": "snell", "crystal": o["id"], "pol": o["pol"], "ct": o["ct"], "cp": o["cp"], "lambda": o["lambda"],
+               "temperature_c": fl(o["tc"]) if "tc" in o else 20.0,
+               "replay": {"kind": "snell", "crystal": o["id"], "pol": o["pol"], "ct": o["ct"], "cp": o["cp"], "tc": o.get("tc"), "lambda": o["lambda"],
                           "bphi": o["bphi"], "te": o["te"]}}
         if "panic" in o:
             ctx.violation("S5", f"{o['id']}: set_theta_external({fl(o['te_deg'])} deg) panicked: {o['panic'][:160]}", {"kind": "snell_panic"}, rep)
@@ -207,14 +208,18 @@ def check_snell(ctx, obs):
                           {"kind": "snell_roundtrip" + sfx}, rep)
             if near_axis:
                 ctx.count("snell_fail_near_axis")
-        res = abs(float(hp.sin(frac_of_hex(o["te"])) - hp.D(frac_of_hex(o["n"])) * hp.sin(frac_of_hex(o["ti"]))))
+        # sin|theta_e| = n(theta_i) sin|theta_i| (a negative external angle gives the mirrored internal angle)
+        res = abs(float(hp.sin(abs(frac_of_hex(o["te"]))) - hp.D(frac_of_hex(o["n"])) * hp.sin(abs(frac_of_hex(o["ti"])))))
         rep["residual"] = res
         if res > 3e-8:
-            ctx.violation("S5", f"{o['id']} ({o['pol']}): stored internal angle violates sin(theta_e) = n sin(theta_i): residual {res:.3e} at theta_e = {fl(o['te_deg'])!r} deg{note}",
-                          {"kind": "snell_residual" + sfx}, rep)
-        if abs(ti) > abs(te) + 1e-9 or not (0 <= ti <= math.pi / 2):
-            ctx.violation("S5", f"{o['id']} ({o['pol']}): internal angle {ti!r} is larger than the external angle {te!r} (or outside [0, pi/2])",
-                          {"kind": "snell_internal_larger" + sfx}, rep)
+            # the property gives no tolerance for Snell's law itself: a residual above 3e-8 is the optimiser's CONTRACT failing (the
+            # hypothesis of the round-trip theorem); it is a property violation only when the 1e-5 deg read-back fails as well
+            ctx.violation("S5", f"{o['id']} ({o['pol']}): optimiser contract fails: residual |sin|theta_e| - n sin|theta_i|| = {res:.3e} > 3e-8 at theta_e = "
+                          f"{fl(o['te_deg'])!r} deg (read-back error {err_deg:.2e} deg){note}",
+                          {"kind": "snell_residual" + sfx}, rep, found_input=err_deg > 1e-5)
+        if abs(ti) > abs(te) + 1e-9 or not (abs(ti) <= math.pi / 2) or (ti != 0 and te != 0 and (ti > 0) != (te > 0)):
+            ctx.violation("S5", f"{o['id']} ({o['pol']}): internal angle {ti!r} is larger in magnitude than the external angle {te!r}, outside [-pi/2, pi/2], "
+                          f"or on the other side of the normal", {"kind": "snell_internal_larger" + sfx}, rep)
         out.append(o)
     return out
 
@@ -279,7 +284,41 @@ def check_units(ctx, obs):
         e, o, rep, want = max(bad_waist, key=lambda t: t[0])     # report the clearest of them
         ctx.violation("S5", f"{o['id']} ({o['pol']}, crystal theta {fl(o['ct'])!r}): optimal_waist_position {fl(o['z'])!r} is not -L/(2 n_z) = {want!r} "
                       f"with n_z = index_along(z) = {fl(o['nz'])!r} (relative error {e:.2e}; {len(bad_waist)} of {len(waists)} set-ups)", {"kind": "waist_position"}, rep)
+    check_spdc_waist(ctx, obs)
     return units, waists
+
+
+def check_spdc_waist(ctx, obs):
+    """the callers of optimal_waist_position: each stored position must be -L/(2 n_z) with n_z the index along z at THAT beam's wavelength
+    and polarization (signal from the signal, idler from the idler)"""
+    bad = []
+    n = 0
+    for o in [x for x in obs if x["kind"] == "spdcwaist"]:
+        ctx.count(f"spdcwaist:{o['path']}")
+        ctx.seen(("spdcwaist", o["id"], o["pm"], o["path"], o.get("ls"), o.get("li")))
+        if not o["built"]:
+            if o["path"] != "try_as_spdc":
+                ctx.violation("S5", f"{o['id']} {o['pm']}: {o['path']} panicked", {"kind": "waist_caller_panic", "path": o["path"]}, o)
+            continue
+        n += 1
+        for who, z, nz, pol, lam in (("signal", o["zs"], o["nzs"], o["ps"], o["ls"]), ("idler", o["zi"], o["nzi"], o["pi"], o["li"])):
+            rep = {"crystal": o["id"], "pm_type": o["pm"], "path": o["path"], "beam": who, "polarization": pol, "wavelength_m": fl(lam),
+                   "crystal_theta_deg": fl(o["theta_deg"]), "crystal_phi_deg": fl(o["phi_deg"]), "temperature_c": fl(o["tc"]), "length_m": fl(o["len"]),
+                   "signal_polarization": o["ps"], "idler_polarization": o["pi"], "stored_position_m": fl(z),
+                   "n_z": fl(nz) if nz else None}
+            if nz is None or fl(nz) <= 0:
+                ctx.violation("S5", f"{o['id']}: index along z not available for the {who}", {"kind": "waist_position_undefined"}, rep)
+                continue
+            want = -hp.D(frac_of_hex(o["len"])) / (2 * hp.D(frac_of_hex(nz)))
+            e = rel_err(frac_of_hex(z), want)
+            rep["expected_position_m"] = float(want)
+            if e > 4e-15:
+                bad.append((e, o, who, rep))
+    if bad:
+        e, o, who, rep = max(bad, key=lambda t: t[0])
+        ctx.violation("S5", f"{o['id']} {o['pm']}: {o['path']} stores the {who}'s waist position {rep['stored_position_m']!r}, but -L/(2 n_z) for the {who} "
+                      f"({rep['polarization']}-polarized, {rep['wavelength_m']:.4e} m) is {rep['expected_position_m']!r} (relative error {e:.2e}; "
+                      f"{len(bad)} of {2 * n} stored positions)", {"kind": "waist_position_caller", "path": o["path"], "beam": who}, rep)
 
 
 # ------------------------------------------------------------------------------------------------ S4 interval goals
@@ -303,8 +342,8 @@ def quotient(x):
 def state_goal(term, nxt, tol_phi, tol_theta):
     d = nxt["dir"]
     return (f"Rabs (b_phi ({term}) - {coq_hex(nxt['phi'])}) <= {tol_phi} /\\ Rabs (b_theta ({term}) - {coq_hex(nxt['theta'])}) <= {tol_theta} /\\ "
-            f"Rabs (vx (b_direction ({term})) - {coq_hex(d[0])}) <= 2e-15 /\\ Rabs (vy (b_direction ({term})) - {coq_hex(d[1])}) <= 2e-15 /\\ "
-            f"Rabs (vz (b_direction ({term})) - {coq_hex(d[2])}) <= 2e-15")
+            f"Rabs (vx (b_direction ({term})) - {coq_hex(d[0])}) <= 4e-15 /\\ Rabs (vy (b_direction ({term})) - {coq_hex(d[1])}) <= 4e-15 /\\ "
+            f"Rabs (vz (b_direction ({term})) - {coq_hex(d[2])}) <= 4e-15")
 
 
 def ctol(x):
@@ -425,11 +464,11 @@ def nm_replay(ctx, snells, budget):
         if any(not is_finite_hex(c) and fl(c) != float("inf") for _, c in r["table"]):
             continue
         rep = {"crystal": o["id"], "polarization": o["pol"], "theta_external_deg": fl(o["te_deg"]), "replay": None}
-        if r["direct"] is None or r["direct"] != r["result"]["x"]:
+        if r["direct"] is None or r["direct"] != r.get("signed", r["result"]["x"]):
             # the harness replica (cost closure rebuilt from public API) no longer follows calc_internal_theta_from_external
             ctx.case_failures.append(rep)
             ctx.violation("S4", f"{o['id']}: calc_internal_theta_from_external returns {fl(r['direct']) if r['direct'] else None!r}, the replica of its "
-                          f"optimisation (cost |sin th_e - n sin th|, seeds (th_e, th_e + 1), 100 iterations, [0, pi/2], 1e-12) returns "
+                          f"optimisation (cost |sin th_e - n sin th|, seeds (|th_e|, |th_e| + 1), 100 iterations, [0, pi/2], 1e-12) returns "
                           f"{fl(r['result']['x'])!r}", {"kind": "model_mismatch", "what": "snell_replica"}, rep, found_input=False)
             continue
         cand.append(o)
@@ -525,7 +564,7 @@ def run(ctx):
         "pump converted from a beam points along z": "proved",
         "set external angle, read back within 1e-5 deg; sin th_e = n sin th_i; |th_i| <= |th_e|": "proved_partial: with the two-vertex Nelder-Mead MODELLED (Model/NM1d.v, replayed bit for bit against nelder_mead_1d) the returned angle is in [0, pi/2] with residual <= residual at the seed, a root exists in [0, th_e] (IVT, built-in crystals), and the round trip follows from the residual; convergence to residual <= 3e-8 within 100 iterations stays a contract checked on every generated input",
         "omega = 2 pi c / lambda both ways; Celsius/Kelvin; FWHM = 2 sqrt(2 ln 2) sigma; waist conversions": "proved (field) + measured 1e-15",
-        "waist position = -L / (2 n_z)": "proved for the generated formula; n_z is C02's index along z"}
+        "waist position = -L / (2 n_z)": "proved for the generated formula (n_z: C02's index along z, 1 < n_z < 4 for built-in crystals) and for every caller (generated call list: signal from the signal's wavelength and polarization, idler from the idler's); callers observed for all five phase-matching types"}
     return finish(ctx, assumptions=[
         "argmin's Nelder-Mead (math::nelder_mead_1d) is an oracle: the round-trip theorem is conditional on its result lying in [0, pi/2] with residual <= 3e-8",
         "the crystal's index along a direction is a parameter of the Snell theorems (C02's subject)",
